@@ -225,6 +225,9 @@ class C06(Check):
             if case.get('double'):
                 plan += [[{'k': k, 'target': 's0', 'token': [100]}, {'k': min(k + d, N), 'target': 's0', 'token': [101]}]
                          for k in range(N + 1) for d in (0, 1, 3)]
+                # ... and the same token (equal values, distinct objects / no token at all) twice
+                plan += [[{'k': k, 'target': 's0', 'token': tok}, {'k': min(k + d, N), 'target': 's0', 'token': list(tok)}]
+                         for k in range(N + 1) for d in (1, 3) for tok in ([100], [])]
             out.features.add('exhaustive_k')
         else:
             fl = [dict(f, k=f['k'] % (N + 1)) for f in case['faults']]
@@ -232,6 +235,8 @@ class C06(Check):
             if case.get('double') and len(fl) >= 2:
                 a, b = sorted(fl[:2], key=lambda f: f['k'])
                 plan.append([dict(a, target='s0'), dict(b, target='s0', token=[777])])
+                plan.append([dict(a, target='s0'), dict(b, target='s0', token=list(a['token']))])     # an equal token again
+                plan.append([dict(a, target='s0', token=[]), dict(b, target='s0', token=[])])          # no token, twice
         for faults in plan:
             it, oc, exc, p = execute(prog, mk(), faults=faults, sample=True)
             out.evals += 1
